@@ -11,6 +11,7 @@ MODS = {
     "CycA.ckl": "println('load CycA'); require CycB; def a = 1;",
     "CycB.ckl": "println('load CycB'); require CycA; def b = 2;",
     "Dep.ckl": "println('load Dep'); require Good; def d = Good->val + 1;",
+    "Counter.ckl": "println('load Counter'); def c = [0]; def bump() do c[0] = c[0] + 1; c[0] end;",
 }
 
 # command -> (source, source of its effects when it fails part-way ('' = no effect), fails?)
@@ -25,6 +26,7 @@ COMMANDS = {
     "fail_name": ("undefined_thing + 1", "", True),
     "syntax": ("def y = (1 +", "", True),
     "req_good": ("require Good; Good->val", None, False),
+    "bump": ("require Counter; Counter->bump()", None, False),
     "req_missing": ("require Missing", "", True),
     "req_broken": ("require Broken", "", True),
     "req_failing": ("require Failing", "", True),
@@ -151,7 +153,7 @@ def run(ctx):
         for w in (0, 1):
             alone = run_history([c for c, x in zip(h, who) if x == w])
             mine = [o for o, x in zip(both, who) if x == w]
-            if [o[0] for o in alone] != [o[0] for o in mine]:
+            if alone != mine:
                 ctx.violation("oracle", f"interpreter {w} behaves differently when interleaved with another instance: {mine} vs alone {alone}",
                               {"op": "interleaved", "commands": [COMMANDS[c][0] for c in h], "who": who})
     # ---------------- model
